@@ -251,7 +251,12 @@ func runOnce(sc scenario, w world, host string, choose vsched.Chooser) (inv []in
 			if iv.retryOf >= 0 {
 				rl = listR2
 			}
-			return nil, fmt.Errorf("handshake: %w", &tls.ECHRejectionError{RetryConfigList: rl})
+			rej := &tls.ECHRejectionError{RetryConfigList: rl}
+			if len(inv)%2 == 0 {
+				// the rejection sits in an error TREE (errors.Join, as a DialFunc that tries several things reports it)
+				return nil, errors.Join(errors.New("dial: first transport failed"), fmt.Errorf("handshake: %w", rej))
+			}
+			return nil, fmt.Errorf("handshake: %w", rej)
 		}
 	}
 	_, dialErr = d.Dial(context.Background(), "tcp", sc.Addr, caller)
